@@ -8,10 +8,13 @@
    For a source interval [A,B):  cov_min = floor(pos t A), cov_max = ceil(pos t B) - 1  (exact cover),
                                  wid_min = floor(pos t (floor A)), wid_max = ceil(pos t (ceil B)) - 1  (ends widened to whole metres).
    z2key f z out E O  = ConvertZToMinMaxAltitudekey(f, z, out, E, O);   key2z k kz out E O = ConvertAltitudekeyToMinMaxZ(k, kz, out, E, O).
-   DOMAIN. The theorems about z2key / key2z / z2minkey / index_exists hold for ALL integers (zooms, exponent and offset of either sign;
-   in Coq 2^z = 0 for z < 0, so "no index exists at a negative zoom" is part of the statements). They are statements about the Go
-   code wherever no int64 operation wraps: C12_int64_* and C12_no_overflow_on_domain_* make that precise (zooms and base exponent in
-   0..35, |offset| <= 2^27 forward / 2^50 backward); C12_int64_overflow_refuted shows it fails beyond. *)
+   DOMAIN. Both exported conversions first refuse zooms outside 0..35 (shape.CheckZoom on the source and the target zoom, /repo 9dab435):
+   z2key / key2z are Err there (C12_forward_bad_zoom, C12_backward_bad_zoom) and conv_spec demands exactly that. With the zooms in 0..35
+   the theorems hold for ALL integers base exponent and offset. z2key_raw / key2z_raw / z2minkey / index_exists carry no guard and their
+   theorems hold for all integers (in Coq 2^z = 0 for z < 0: no index exists at a negative zoom). These are statements about the Go code
+   wherever no int64 operation wraps: C12_int64_* and C12_no_overflow_on_domain_* make that precise (base exponent in 0..35,
+   |offset| <= 2^27 forward / 2^50 backward); C12_int64_overflow_refuted shows it fails beyond; C12_no_panic_* / C12_exponent_panic_refuted
+   say where a panic is (un)reachable. *)
 From Coq Require Import ZArith Reals Bool.
 From Flocq Require Import Core.
 From SID Require Import Base AltKeyCore AltKey DC12.
@@ -44,8 +47,9 @@ Proof. exact wid_eq_cov. Qed.
 Print Assumptions C12_covers_coincide_when_a_metre_tall.
 
 (* ---- both directions meet the specification (conv_spec, AltKey.v):
-        Ok (mn,mx): the source index exists, mn and mx exist at the target zoom, mn <= mx, wid_min <= mn <= cov_min, cov_max <= mx <= wid_max;
-        Err       : NOT (the source index exists and the widened cover fits the target index range)                           ---- *)
+        Ok (mn,mx): both zooms are in 0..35, the source index exists, mn and mx exist at the target zoom, mn <= mx,
+                    wid_min <= mn <= cov_min, cov_max <= mx <= wid_max;
+        Err       : NOT (both zooms in 0..35 and the source index exists and the widened cover fits the target index range)        ---- *)
 Theorem C12_forward_meets_spec : forall f z out E O, conv_spec (sid_scale z) f (key_scale out E O) (z2key f z out E O).
 Proof. exact z2key_conv. Qed.
 Print Assumptions C12_forward_meets_spec.
@@ -54,28 +58,33 @@ Theorem C12_backward_meets_spec : forall k kz out E O, conv_spec (key_scale kz E
 Proof. exact key2z_conv. Qed.
 Print Assumptions C12_backward_meets_spec.
 
-(* any function meeting conv_spec reports an error when the index does not exist or the EXACT cover leaves the target range, and
-   never when the index exists and even the WIDENED cover fits *)
+(* any function meeting conv_spec reports an error when a zoom is outside 0..35, the index does not exist or the EXACT cover leaves the
+   target range, and never when the zooms are in 0..35, the index exists and even the WIDENED cover fits *)
 Theorem C12_spec_forces_error : forall s i t r, conv_spec s i t r ->
-  (~ in_range s i \/ ~ (in_range t (cov_min t (cell_lo s i)) /\ in_range t (cov_max t (cell_hi s i)))) -> r = Err.
+  (~ zooms_ok s t \/ ~ in_range s i \/ ~ (in_range t (cov_min t (cell_lo s i)) /\ in_range t (cov_max t (cell_hi s i)))) -> r = Err.
 Proof. exact conv_spec_must_err. Qed.
 Print Assumptions C12_spec_forces_error.
 Theorem C12_spec_excludes_error : forall s i t r, conv_spec s i t r ->
-  in_range s i -> in_range t (wid_min t (cell_lo s i)) -> in_range t (wid_max t (cell_hi s i)) -> exists mn mx, r = Ok (mn, mx).
+  zooms_ok s t -> in_range s i -> in_range t (wid_min t (cell_lo s i)) -> in_range t (wid_max t (cell_hi s i)) -> exists mn mx, r = Ok (mn, mx).
 Proof. exact conv_spec_must_ok. Qed.
 Print Assumptions C12_spec_excludes_error.
 
 (* ---- forward direction in detail: the result IS the exact cover (also for sub-metre voxels), error iff it cannot be returned ---- *)
 Theorem C12_forward_is_exact_cover : forall f z out E O mn mx, z2key f z out E O = Ok (mn, mx) ->
   let s := sid_scale z in let t := key_scale out E O in
-  mn = cov_min t (cell_lo s f) /\ mx = cov_max t (cell_hi s f) /\ mn <= mx /\ (- 2 ^ z <= f < 2 ^ z) /\ 0 <= mn /\ mx < 2 ^ out.
+  mn = cov_min t (cell_lo s f) /\ mx = cov_max t (cell_hi s f) /\ mn <= mx /\ (- 2 ^ z <= f < 2 ^ z) /\ 0 <= mn /\ mx < 2 ^ out /\
+  0 <= z <= 35 /\ 0 <= out <= 35.
 Proof. exact z2key_ok. Qed.
 Print Assumptions C12_forward_is_exact_cover.
 Theorem C12_forward_err_iff : forall f z out E O,
   let s := sid_scale z in let t := key_scale out E O in
-  z2key f z out E O = Err <-> ~ (- 2 ^ z <= f < 2 ^ z) \/ ~ (0 <= cov_min t (cell_lo s f) /\ cov_max t (cell_hi s f) < 2 ^ out).
+  z2key f z out E O = Err <->
+  ~ (0 <= z <= 35 /\ 0 <= out <= 35) \/ ~ (- 2 ^ z <= f < 2 ^ z) \/ ~ (0 <= cov_min t (cell_lo s f) /\ cov_max t (cell_hi s f) < 2 ^ out).
 Proof. exact z2key_err_iff. Qed.
 Print Assumptions C12_forward_err_iff.
+Theorem C12_forward_bad_zoom : forall f z out E O, ~ (0 <= z <= 35 /\ 0 <= out <= 35) -> z2key f z out E O = Err.
+Proof. exact z2key_bad_zoom. Qed.
+Print Assumptions C12_forward_bad_zoom.
 
 (* ---- backward direction in detail: the result is the metre-widened cover; exact when key cells (kz <= E) or target cells (out <= 25)
         are at least one metre tall; error iff the key does not exist or the widened cover leaves [-2^out, 2^out) ---- *)
@@ -84,14 +93,18 @@ Theorem C12_backward_is_widened_cover_and_exact_when_a_metre_tall : forall k kz 
   mn = wid_min t (cell_lo s k) /\ mx = wid_max t (cell_hi s k) /\
   mn <= cov_min t (cell_lo s k) /\ cov_max t (cell_hi s k) <= mx /\ mn <= mx /\
   ((kz <= E \/ out <= zorigin) -> mn = cov_min t (cell_lo s k) /\ mx = cov_max t (cell_hi s k)) /\
-  0 <= k < 2 ^ kz /\ - 2 ^ out <= mn /\ mx < 2 ^ out.
+  0 <= k < 2 ^ kz /\ - 2 ^ out <= mn /\ mx < 2 ^ out /\ 0 <= kz <= 35 /\ 0 <= out <= 35.
 Proof. exact key2z_ok. Qed.
 Print Assumptions C12_backward_is_widened_cover_and_exact_when_a_metre_tall.
 Theorem C12_backward_err_iff : forall k kz out E O,
   let s := key_scale kz E O in let t := sid_scale out in
-  key2z k kz out E O = Err <-> ~ (0 <= k < 2 ^ kz) \/ ~ (- 2 ^ out <= wid_min t (cell_lo s k) /\ wid_max t (cell_hi s k) < 2 ^ out).
+  key2z k kz out E O = Err <->
+  ~ (0 <= kz <= 35 /\ 0 <= out <= 35) \/ ~ (0 <= k < 2 ^ kz) \/ ~ (- 2 ^ out <= wid_min t (cell_lo s k) /\ wid_max t (cell_hi s k) < 2 ^ out).
 Proof. exact key2z_err_iff. Qed.
 Print Assumptions C12_backward_err_iff.
+Theorem C12_backward_bad_zoom : forall k kz out E O, ~ (0 <= kz <= 35 /\ 0 <= out <= 35) -> key2z k kz out E O = Err.
+Proof. exact key2z_bad_zoom. Qed.
+Print Assumptions C12_backward_bad_zoom.
 Theorem C12_backward_err_when_exact_cover_leaves : forall k kz out E O,
   let s := key_scale kz E O in let t := sid_scale out in
   ~ (- 2 ^ out <= cov_min t (cell_lo s k) /\ cov_max t (cell_hi s k) < 2 ^ out) -> key2z k kz out E O = Err.
@@ -164,6 +177,26 @@ Theorem C12_no_overflow_on_domain_backward : forall k kz out E O,
   exists r, go_result (key2z64m k kz out E O) = Some r /\ conv_spec (key_scale kz E O) k (sid_scale out) r.
 Proof. exact key2z64_domain_spec. Qed.
 Print Assumptions C12_no_overflow_on_domain_backward.
+(* a zoom outside 0..35 — any int64, MinInt64 included — is answered with an error before any shift: no wrap-around, no panic *)
+Theorem C12_int64_bad_zoom_forward : forall f z out E O, ~ (0 <= z <= 35 /\ 0 <= out <= 35) -> z2key64m f z out E O = Some (Err, true).
+Proof. exact z2key64m_bad_zoom. Qed.
+Print Assumptions C12_int64_bad_zoom_forward.
+Theorem C12_int64_bad_zoom_backward : forall k kz out E O, ~ (0 <= kz <= 35 /\ 0 <= out <= 35) -> key2z64m k kz out E O = Some (Err, true).
+Proof. exact key2z64m_bad_zoom. Qed.
+Print Assumptions C12_int64_bad_zoom_backward.
+(* the exported conversions never panic (None) for any index, zooms and offset as long as |zBaseExponent| <= 2^62 ... *)
+Theorem C12_no_panic_forward : forall f z out E O, - 2 ^ 62 <= E <= 2 ^ 62 -> z2key64m f z out E O <> None.
+Proof. exact z2key64m_no_panic. Qed.
+Print Assumptions C12_no_panic_forward.
+Theorem C12_no_panic_backward : forall k kz out E O, - 2 ^ 62 <= E <= 2 ^ 62 -> key2z64m k kz out E O <> None.
+Proof. exact key2z64m_no_panic. Qed.
+Print Assumptions C12_no_panic_backward.
+(* ... but zBaseExponent itself is not validated: MinInt64 + outputZoom (forward) / MinInt64 + key zoom (backward) makes the shift
+   count MinInt64 and Go panics "negative shift amount" (part of finding class int64_overflow) *)
+Theorem C12_exponent_panic_refuted :
+  go_result (z2key64m 0 25 10 (- 2 ^ 63 + 10) 0) = None /\ go_result (key2z64m 0 3 25 (- 2 ^ 63 + 3) 0) = None.
+Proof. exact exponent_panic_refuted. Qed.
+Print Assumptions C12_exponent_panic_refuted.
 (* finding class int64_overflow: inside the zoom domain, offset 2^29 *)
 Theorem C12_int64_overflow_refuted :
   exists f z out E O, 0 <= z <= 35 /\ 0 <= out <= 35 /\ 0 <= E <= 35 /\ O = 2 ^ 29 /\
@@ -171,6 +204,19 @@ Theorem C12_int64_overflow_refuted :
     ~ conv_spec (sid_scale z) f (key_scale out E O) (Ok (0, 2 ^ 35 - 1)).
 Proof. exact int64_overflow_refuted. Qed.
 Print Assumptions C12_int64_overflow_refuted.
+(* ... and in the backward direction, offset 2^54 *)
+Theorem C12_int64_overflow_refuted_backward :
+  exists k kz out E O, 0 <= kz <= 35 /\ 0 <= out <= 35 /\ 0 <= E <= 35 /\ O = 2 ^ 54 /\
+    go_result (key2z64m k kz out E O) = Some (Ok (0, 1023)) /\ key2z k kz out E O = Err /\
+    ~ conv_spec (key_scale kz E O) k (sid_scale out) (Ok (0, 1023)).
+Proof. exact int64_overflow_refuted_backward. Qed.
+Print Assumptions C12_int64_overflow_refuted_backward.
+(* the run-time property decision of the dispatch entries (check_conv for |zBaseExponent| <= 64 and for bad zooms, "no wrap and equal to
+   the int64 model" beyond) is sound for the specification *)
+Theorem C12_dispatch_prop_sound : forall fwd i zs zt E O o,
+  conv_prop fwd i zs zt E O (conv_model fwd i zs zt E O) o = true -> conv_spec (conv_src fwd zs E O) i (conv_tgt fwd zt E O) o.
+Proof. exact conv_prop_sound. Qed.
+Print Assumptions C12_dispatch_prop_sound.
 
 (* ---- non-vacuity and regression witnesses ---- *)
 (* the four inputs on which the code before 84c8b2c lost altitude or refused valid input (known-findings.txt, fixed) *)
@@ -191,10 +237,13 @@ Proof. rewrite cov_min_z_spec, cov_max_z_spec. vm_compute. repeat split. Qed.
 (* a key cell straddling the top of the target range is refused; so is one past the last index *)
 Example C12_errors : key2z (2 ^ 20 - 1) 20 25 25 (-5) = Err /\ key2z 0 0 25 25 (-1) = Err /\ z2key 8 3 3 25 0 = Err /\ key2z 8 3 3 25 0 = Err.
 Proof. vm_compute. repeat split. Qed.
-(* outside the documented zoom range (D10): zoom 36 is accepted, negative zooms are refused, a zoom of MinInt64 panics *)
+(* outside the documented zoom range: refused (since 9dab435), also zoom 36, 63, MaxInt64 and MinInt64 (which used to panic);
+   the unguarded helper validateIndexExists still panics on a zoom of MinInt64 and accepts every index at zoom 63 *)
 Example C12_outside_domain :
-  go_result (z2key64m 0 36 3 25 0) = Some (Ok (0, 0)) /\ go_result (key2z64m 0 3 36 25 0) = Some (Ok (0, 2 ^ 33 - 1)) /\
-  go_result (z2key64m 0 (-1) 3 25 0) = Some Err /\ go_result (z2key64m 0 (- 2 ^ 63) 3 25 0) = None /\ go_result (key2z64m 0 3 (- 2 ^ 63) 25 0) = None.
+  go_result (z2key64m 0 36 3 25 0) = Some Err /\ go_result (key2z64m 0 3 36 25 0) = Some Err /\
+  go_result (z2key64m 0 (-1) 3 25 0) = Some Err /\ go_result (z2key64m 0 (- 2 ^ 63) 3 25 0) = Some Err /\
+  go_result (key2z64m 0 3 (- 2 ^ 63) 25 0) = Some Err /\ go_result (key2z64m 0 63 3 25 0) = Some Err /\
+  go_result (validatem 0 (- 2 ^ 63) true) = None /\ go_result (validatem 12345 63 false) = Some true.
 Proof. vm_compute. repeat split. Qed.
 
 (* ---- tie to the source by regeneration (DESIGN.md 4.2): the altitude-key kernels translated from /repo's current source
